@@ -291,9 +291,9 @@ def build(ctx):
     hs = []
     ctx.assumptions = ["traits are nullary: apart from the character index of string traits every obligation is closed (no free variable); the schemas are enumerated",
                        "type identities / tag lists / predicates are folded to 0/1 by the clang front end before lowering (the solver confirms the folded constant)"]
-    plan = ctx.q([("vs_traits.xml", "17"), ("vs_traits.xml", "11"), ("vs_msg2_le.xml", "17"), ("vs_msg_be.xml", "17"), ("vs_exotic.xml", "17")],
+    plan = ctx.q([("vs_traits.xml", "17"), ("vs_traits.xml", "11"), ("vs_msg2_le.xml", "17"), ("vs_msg_be.xml", "17"), ("vs_exotic.xml", "17"), ("vs_hdr_j.xml", "17")],
                  [("vs_traits.xml", s) for s in ("11", "14", "17", "20")] + [(x, "17") for x in ("vs_msg2_le.xml", "vs_msg2_be.xml", "vs_msg_le.xml", "vs_msg_be.xml", "vs_hdr_a.xml",
-                  "vs_hdr_b.xml", "vs_hdr_c.xml", "vs_hdr_d.xml", "vs_hdr_e.xml", "vs_dims.xml", "vs_data_le.xml", "vs_opt.xml", "vs_sets.xml", "vs_exotic.xml", "vs_hdr_g.xml")])
+                  "vs_hdr_b.xml", "vs_hdr_c.xml", "vs_hdr_d.xml", "vs_hdr_e.xml", "vs_dims.xml", "vs_data_le.xml", "vs_opt.xml", "vs_sets.xml", "vs_exotic.xml", "vs_hdr_g.xml", "vs_hdr_j.xml")])
     plan = hgen.plan_env(plan, 2)
     ctx.extra = {"obligations_by_kind": {}, "schemas": []}
     for xml, std in plan:
